@@ -40,6 +40,7 @@ Proof. intros Hh Hl. rewrite mk16_arith by assumption. unfold is8, is16 in *. li
 Lemma is16_regw r : WF_reg r -> is16 (regw r).
 Proof. intros [H1 H2]. apply is16_mk16; assumption. Qed.
 #[global] Hint Resolve is16_mk16 : ranges.
+#[global] Hint Extern 2 (is16 (regw _)) => (unfold regw; apply is16_mk16) : ranges.
 
 (* conditions: the mask tests of the Go are bit tests *)
 Lemma mask_bit f k : 0 <= k < 8 -> is8 f -> (Z.land f (2 ^ k) =? 0) = negb (Z.testbit f k).
@@ -49,3 +50,80 @@ Lemma mask1 f : is8 f -> (Z.land f 1 =? 0) = negb (Z.testbit f 0). Proof. apply 
 Lemma mask4 f : is8 f -> (Z.land f 4 =? 0) = negb (Z.testbit f 2). Proof. apply (mask_bit f 2); lia. Qed.
 Lemma mask64 f : is8 f -> (Z.land f 64 =? 0) = negb (Z.testbit f 6). Proof. apply (mask_bit f 6); lia. Qed.
 Lemma mask128 f : is8 f -> (Z.land f 128 =? 0) = negb (Z.testbit f 7). Proof. apply (mask_bit f 7); lia. Qed.
+
+(* ---- register pairs: byte-wise forms used by some handlers ---- *)
+Lemma reg_eq h l h' l' : h = h' -> l = l' -> mk_Register h l = mk_Register h' l'.
+Proof. intros -> ->. reflexivity. Qed.
+Lemma wreg_mk16 h l : is8 h -> is8 l -> wreg (mk16 h l) = mk_Register h l.
+Proof. intros Hh Hl. unfold wreg, hi, lo, mk16. apply reg_eq; enum2 h l. Qed.
+Lemma wreg_inc16 r : is8 (Register_Hi r) -> is8 (Register_Lo r) ->
+  wreg (u16 (regw r + 1)) =
+  if u8 (Register_Lo r + 1) =? 0 then mk_Register (u8 (Register_Hi r + 1)) (u8 (Register_Lo r + 1))
+  else mk_Register (Register_Hi r) (u8 (Register_Lo r + 1)).
+Proof.
+  destruct r as [h l]. cbn [Register_Hi Register_Lo]. intros Hh Hl.
+  transitivity (mk_Register (if u8 (l + 1) =? 0 then u8 (h + 1) else h) (u8 (l + 1))); [|destruct (u8 (l + 1) =? 0); reflexivity].
+  unfold wreg, regw, hi, lo, mk16, inc16. cbn [Register_Hi Register_Lo]. apply reg_eq; enum2 h l.
+Qed.
+Lemma wreg_dec16 r : is8 (Register_Hi r) -> is8 (Register_Lo r) ->
+  wreg (u16 (regw r - 1)) =
+  if u8 (Register_Lo r - 1) =? 255 then mk_Register (u8 (Register_Hi r - 1)) (u8 (Register_Lo r - 1))
+  else mk_Register (Register_Hi r) (u8 (Register_Lo r - 1)).
+Proof.
+  destruct r as [h l]. cbn [Register_Hi Register_Lo]. intros Hh Hl.
+  transitivity (mk_Register (if u8 (l - 1) =? 255 then u8 (h - 1) else h) (u8 (l - 1))); [|destruct (u8 (l - 1) =? 255); reflexivity].
+  unfold wreg, regw, hi, lo, mk16, dec16. cbn [Register_Hi Register_Lo]. apply reg_eq; enum2 h l.
+Qed.
+Lemma hi_mk16 h l : is8 h -> is8 l -> hi (mk16 h l) = h.
+Proof. intros. unfold hi, mk16. enum2 h l. Qed.
+Lemma lo_mk16 h l : is8 h -> is8 l -> lo (mk16 h l) = l.
+Proof. intros. unfold lo, mk16. enum2 h l. Qed.
+#[global] Hint Extern 1 (is8 (match wget ?w ?m ?a with (_, y) => y end)) =>
+  exact (wget_byte w m a ltac:(assumption)) : ranges.
+Lemma with_hi_hi w : is16 w -> with_hi w (hi w) = w.
+Proof.
+  intros Hw. destruct (Z.div_mod w 256 ltac:(lia)) . unfold with_hi, hi.
+  assert (E : forall h l, is8 h -> is8 l -> Z.lor (u16 (Z.shiftl (u8 (Z.shiftr (h * 256 + l) 8)) 8)) (Z.land (h * 256 + l) 255) = h * 256 + l).
+  { intros h l Hh Hl. enum2 h l. }
+  pose proof (Z.mod_pos_bound w 256 ltac:(lia)).
+  rewrite (Z.div_mod w 256) at 1 2 3 by lia. rewrite (Z.mul_comm 256). apply E; unfold is8, is16 in *.
+  - split; [apply Z.div_pos; lia | apply Z.div_lt_upper_bound; lia].
+  - lia.
+Qed.
+Lemma with_lo_lo w : is16 w -> with_lo w (lo w) = w.
+Proof.
+  intros Hw. unfold with_lo, lo.
+  assert (E : forall h l, is8 h -> is8 l -> Z.lor (u8 (h * 256 + l)) (Z.land (h * 256 + l) 65280) = h * 256 + l).
+  { intros h l Hh Hl. enum2 h l. }
+  pose proof (Z.mod_pos_bound w 256 ltac:(lia)).
+  rewrite (Z.div_mod w 256) at 1 2 3 by lia. rewrite (Z.mul_comm 256). apply E; unfold is8, is16 in *.
+  - split; [apply Z.div_pos; lia | apply Z.div_lt_upper_bound; lia].
+  - lia.
+Qed.
+Lemma hi_regw r : is8 (Register_Hi r) -> is8 (Register_Lo r) -> hi (regw r) = Register_Hi r.
+Proof. intros. apply hi_mk16; assumption. Qed.
+Lemma lo_regw r : is8 (Register_Hi r) -> is8 (Register_Lo r) -> lo (regw r) = Register_Lo r.
+Proof. intros. apply lo_mk16; assumption. Qed.
+Lemma mk16_hi_lo w : is16 w -> mk16 (hi w) (lo w) = w.
+Proof. intros H. exact (regw_wreg w H). Qed.
+Lemma reg_inc16 r : is8 (Register_Hi r) -> is8 (Register_Lo r) ->
+  mk_Register (hi (u16 (regw r + 1))) (lo (u16 (regw r + 1))) =
+  if u8 (Register_Lo r + 1) =? 0 then mk_Register (u8 (Register_Hi r + 1)) (u8 (Register_Lo r + 1))
+  else mk_Register (Register_Hi r) (u8 (Register_Lo r + 1)).
+Proof. intros. rewrite <- wreg_inc16 by assumption. reflexivity. Qed.
+Lemma reg_dec16 r : is8 (Register_Hi r) -> is8 (Register_Lo r) ->
+  mk_Register (hi (u16 (regw r - 1))) (lo (u16 (regw r - 1))) =
+  if u8 (Register_Lo r - 1) =? 255 then mk_Register (u8 (Register_Hi r - 1)) (u8 (Register_Lo r - 1))
+  else mk_Register (Register_Hi r) (u8 (Register_Lo r - 1)).
+Proof. intros. rewrite <- wreg_dec16 by assumption. reflexivity. Qed.
+Lemma is8_hi w : is8 (hi w). Proof. apply is8_u8. Qed.
+Lemma is8_lo w : is8 (lo w). Proof. apply is8_u8. Qed.
+#[global] Hint Resolve is8_hi is8_lo : ranges.
+Lemma reg_inc16' h l : is8 h -> is8 l ->
+  mk_Register (hi (u16 (mk16 h l + 1))) (lo (u16 (mk16 h l + 1))) =
+  if u8 (l + 1) =? 0 then mk_Register (u8 (h + 1)) (u8 (l + 1)) else mk_Register h (u8 (l + 1)).
+Proof. intros Hh Hl. exact (reg_inc16 (mk_Register h l) Hh Hl). Qed.
+Lemma reg_dec16' h l : is8 h -> is8 l ->
+  mk_Register (hi (u16 (mk16 h l - 1))) (lo (u16 (mk16 h l - 1))) =
+  if u8 (l - 1) =? 255 then mk_Register (u8 (h - 1)) (u8 (l - 1)) else mk_Register h (u8 (l - 1)).
+Proof. intros Hh Hl. exact (reg_dec16 (mk_Register h l) Hh Hl). Qed.
